@@ -5,7 +5,7 @@
     (step.c scanning primitives), over Map/MapModel.v (C10) and Xlat/Step.v (C02). *)
 From Coq Require Import NArith ZArith List Bool Lia.
 From KdV Require Import Base.Wrap64 Map.MapModel Map.MapSpec Xlat.Step Xlat.ArchSpec
-  Sys.LayoutModel Sys.LayoutSpec Sys.LayoutProofs Sys.LayoutArchModel Sys.LayoutArchProofs Sys.ScanModel Sys.ScanProofs Sys.LinuxX86Model Sys.LinuxX86Proofs Sys.LinuxX86Region Sys.LinuxRvA64Model Sys.LinuxRvA64Proofs Sys.LinuxRvA64Region Xlat.FmtRiscvPfn Xlat.WalkProofs Xlat.FmtX86 Xlat.FmtA64.
+  Sys.LayoutModel Sys.LayoutSpec Sys.LayoutProofs Sys.LayoutArchModel Sys.LayoutArchProofs Sys.ReinitProofs Sys.ScanModel Sys.ScanProofs Sys.LinuxX86Model Sys.LinuxX86Proofs Sys.LinuxX86Region Sys.LinuxRvA64Model Sys.LinuxRvA64Proofs Sys.LinuxRvA64Region Xlat.FmtRiscvPfn Xlat.WalkProofs Xlat.FmtX86 Xlat.FmtA64.
 Import ListNotations.
 Local Open Scope N_scope.
 
@@ -116,6 +116,27 @@ Theorem C08_linear_directmap_layout_partial : forall s first last off,
     (forall p, lin off first <= p <= lin off last -> first <= lin (- off) p <= last /\ lin off (lin (- off) p) = p).
 Proof. exact map_direct_layout. Qed.
 Print Assumptions C08_linear_directmap_layout_partial.
+
+(** * Re-initialisation of a used translation system
+
+    [addrxlat_sys_os_init] calls [sys_cleanup], which drops the maps but KEEPS
+    [sys->meth[]].  Partial: proved for [sys_set_physmaps] (every [sys_<arch>]
+    calls it; [act_ident_kphys] / [act_ident_machphys] reset their methods
+    unconditionally): on a cleaned-up used system it gives the same status, the
+    same five maps and the same MACHPHYS <-> KPHYS methods as on a fresh one.
+    For whole initialisations the models start from a fresh system; that the
+    library's result on a used object (histories Xen PV -> bare metal -> Xen PV
+    -> ...) equals the model's on a fresh one is checked by the [os] tie. *)
+Theorem C08_reinit_physmaps_equals_fresh_partial : forall s mx,
+  length (meths s) = METH_NUM ->
+  let a := sys_set_physmaps (sys_cleanup s) mx in
+  let b := sys_set_physmaps sys_new mx in
+  fst a = fst b /\ (forall k, get_map (snd a) k = get_map (snd b) k) /\
+  (fst a = L_OK ->
+   get_meth (snd a) METH_MACHPHYS_KPHYS = get_meth (snd b) METH_MACHPHYS_KPHYS /\
+   get_meth (snd a) METH_KPHYS_MACHPHYS = get_meth (snd b) METH_KPHYS_MACHPHYS).
+Proof. exact reinit_physmaps_equals_fresh. Qed.
+Print Assumptions C08_reinit_physmaps_equals_fresh_partial.
 
 (** * Scanning primitives
 
